@@ -33,6 +33,7 @@ def parseOp? (tok : String) : Option Op :=
   | ["scale", t, c] => do pure (.scale (← t.toNat?) (← c.toNat?))
   | ["getbad", t, "n", i] => do pure (.getBad (← t.toNat?) (.int (← i.toInt?)))
   | "getbad" :: t :: rest => do pure (.getBad (← t.toNat?) (.sel (← parseSel? rest)))
+  | ["getell", t, i] => do pure (.getEll (← t.toNat?) (← i.toInt?))
   | ["same", t] => do pure (.same (← t.toNat?))
   | ["refused", t, f] => do
     let f ← match f with
